@@ -530,6 +530,23 @@ func c07Sentinels() []*genCase {
 	add("alias of object and of optional object", &Desc{Name: "org.example.objalias", Mems: []Mem{{Kind: 't', Name: "Raw", T: base(kObject)}, {Kind: 't', Name: "MaybeRaw", T: wrap(kMaybe, base(kObject))}, {Kind: 't', Name: "MaybeAl", T: wrap(kMaybe, alias("Raw"))},
 		{Kind: 'm', Name: "M", In: strct(Fld{"a", alias("Raw")}, Fld{"b", wrap(kMaybe, alias("Raw"))}, Fld{"c", alias("MaybeRaw")}, Fld{"d", wrap(kArray, alias("Raw"))}), Out: strct(Fld{"r", alias("Raw")}, Fld{"s", wrap(kMaybe, alias("MaybeRaw"))}, Fld{"t", alias("MaybeAl")}, Fld{"u", wrap(kMap, alias("Raw"))})},
 		{Kind: 'e', Name: "E", T: strct(Fld{"detail", alias("Raw")}, Fld{"more", alias("MaybeRaw")})}}}, 0)
+	add("forward references to aliases of object", &Desc{Name: "org.example.fwdobj", Mems: []Mem{{Kind: 't', Name: "Document", T: alias("Payload")}, {Kind: 't', Name: "MaybeDoc", T: wrap(kMaybe, alias("Later"))},
+		{Kind: 'm', Name: "Put", In: strct(Fld{"doc", alias("Document")}, Fld{"m", alias("MaybeDoc")}), Out: strct(Fld{"doc", alias("Document")}, Fld{"l", alias("Later")})},
+		{Kind: 't', Name: "Payload", T: base(kObject)}, {Kind: 't', Name: "Later", T: wrap(kMaybe, base(kObject))},
+		{Kind: 'e', Name: "Rejected", T: strct(Fld{"doc", alias("Document")})}}}, 0)
+	add("member names built from other member names with common prefixes", func() *Desc {
+		d := &Desc{Name: "org.example.prefixes"}
+		for _, b := range []string{"Locked", "Item"} {
+			d.Mems = append(d.Mems, Mem{Kind: 'e', Name: b, T: strct(Fld{"why", base(kString)})})
+			for _, pre := range []string{"Is", "Get", "Set", "New", "Has", "On", "With", "Make", "Do", "Err", "As"} {
+				d.Mems = append(d.Mems, Mem{Kind: 'm', Name: pre + b, In: strct(Fld{"a", base(kInt)}), Out: strct(Fld{"b", base(kInt)})})
+			}
+			for _, suf := range []string{"Error", "Methods", "Call", "Reply", "Type", "Interface"} {
+				d.Mems = append(d.Mems, Mem{Kind: 't', Name: b + suf, T: strct(Fld{"v", base(kInt)})})
+			}
+		}
+		return d
+	}(), 0)
 	add("aliases of builtins and containers", &Desc{Name: "org.example.plainalias", Mems: []Mem{{Kind: 't', Name: "I", T: base(kInt)}, {Kind: 't', Name: "S", T: base(kString)}, {Kind: 't', Name: "F", T: base(kFloat)}, {Kind: 't', Name: "B", T: base(kBool)},
 		{Kind: 't', Name: "L", T: wrap(kArray, base(kObject))}, {Kind: 't', Name: "Mp", T: wrap(kMap, alias("I"))}, {Kind: 't', Name: "O", T: wrap(kMaybe, alias("S"))},
 		{Kind: 'm', Name: "M", In: strct(Fld{"i", alias("I")}, Fld{"s", alias("S")}, Fld{"f", alias("F")}, Fld{"b", alias("B")}, Fld{"l", alias("L")}), Out: strct(Fld{"m", alias("Mp")}, Fld{"o", alias("O")}, Fld{"oo", wrap(kMaybe, alias("O"))})}}}, 0)
